@@ -23,6 +23,7 @@ import (
 
 	"github.com/prometheus/alertmanager/limit"
 	"github.com/prometheus/alertmanager/types"
+	"github.com/prometheus/alertmanager/verifhook"
 )
 
 // ErrLimited is returned if a Store has reached the per-alert limit.
@@ -114,6 +115,7 @@ func (a *Alerts) GC() (deleted []*types.Alert) {
 
 	// Delete resolved alerts.
 	deleted = a.gcAlerts()
+	verifhook.Point("store.gc.collected", a)
 
 	// Execute GC callback if needed.
 	if len(deleted) > 0 {
